@@ -10,8 +10,8 @@ ASSUMPTIONS = [
 ]
 
 VARIANTS = ["sync", "async:0", "async:2"]
-TIMEOUTS = [None, 0, 3 * P.NS, 3600 * P.NS, 2 ** 63 * P.NS, P.U64 * P.NS + 999999999, P.MAXDELTA, P.MAXDELTA + 1, 2500000000]
-EXPIRES = [0, 2, 3600, P.U64, 9223372036854775, 9223372036854776]
+TIMEOUTS = [None, 0, 3 * P.NS, 3600 * P.NS, 86401 * P.NS, 31536000 * P.NS, (2 ** 32 + 1) * P.NS, 2 ** 63 * P.NS, P.U64 * P.NS + 999999999, P.MAXDELTA, P.MAXDELTA + 1, 2500000000]
+EXPIRES = [0, 2, 3600, P.U64, 9223372036854775, 9223372036854776, 86400, 86401, 172800, 2592000, 31536000, 2 ** 31, 2 ** 32 + 1]
 STARTS = [0, 1700000000 * P.NS + 123456789, -5 * P.NS, P.DTMAX - 3600 * P.NS, P.DTMIN, P.DTMAX]
 
 
@@ -32,6 +32,12 @@ def clocks(t0, dl, n, rng):
             before = [min(dl, t0 + k) for k in range(j)]
             out.append(("past-at-%d" % j, before + [min(P.DTMAX, dl + 1)] + [t0] * (n - j - 1)))
             out.append(("at-deadline-%d" % j, before + [dl] + [min(P.DTMAX, dl + 1)] * (n - j - 1)))
+        # late, but still before the deadline (a cap on the lifetime — a day, a year, 2^31 or 2^32 seconds — would give up here)
+        span = dl - t0
+        for frac_name, off in (("half", span // 2), ("nine-tenths", span * 9 // 10), ("one-ns-before", span - 1), ("day+1s", 86401 * P.NS), ("week", 7 * 86400 * P.NS),
+                               ("year+1s", 31536001 * P.NS), ("2^31s+1", (2 ** 31 + 1) * P.NS), ("2^32s", 2 ** 32 * P.NS)):
+            if 0 < off < span:
+                out.append(("late-" + frac_name, [min(P.DTMAX, t0 + off)] * n))
         # non monotone: beyond, but only after readings that go backwards
         out.append(("nonmono", [max(P.DTMIN, t0 - (k + 1) * P.NS) for k in range(n)]))
         r = [rng.choice([t0, dl, max(P.DTMIN, dl - 1), min(P.DTMAX, dl + 1), max(P.DTMIN, t0 - 1)]) for _ in range(n)]
